@@ -55,7 +55,8 @@ LEVEL_TEXT = ("Machine-checked theorems (Coq 8.16, closed under the global conte
               "(source CommandLine, values = the line's) iff not that, else env set, else conditional/plain default, else no "
               "entry; CommandLine iff named (C06_cmdline_iff_named); the missing-value default is stored iff the option's item "
               "carries no value (C06_missing_value_line); two commands differing only in default values have the same "
-              "pre-defaults state, the same verdict and the same explicit entries (C06_defaults_noninterference, with "
+              "pre-defaults state, the same verdict and the same explicit entries, and -- when no default_value_if reads a changed "
+              "argument -- the same source and values for every unchanged argument (C06_defaults_noninterference, C06_defaults_unchanged_args, with "
               "C06_phases_ignore_defaults for ALL commands); for every valid definition without short flag subcommands and "
               "EVERY token list a CommandLine label implies that a token names the argument.  The model is tied to clap_builder "
               "by running the extracted model "
